@@ -1,11 +1,14 @@
 #!/bin/sh
-# run every seeded mutation found under /tmp/mut/*/_out/m* that has no result yet
+# run every seeded mutation found under /tmp/mut/{C,D}*/_out/m* that has no result yet
 mkdir -p /tmp/mut/results
-for d in /tmp/mut/C*/_out/m*; do
+for d in /tmp/mut/[CD][0-9][0-9]/_out/m*; do
   [ -f $d/patch.diff ] || continue
-  p=$(basename $(dirname $(dirname $d))); k=$(basename $d)
-  out=/tmp/mut/results/$p-$k.log
+  [ -f $d/meta.json ] || continue
+  w=$(basename $(dirname $(dirname $d))); k=$(basename $d)
+  p=C$(echo $w | cut -c2-)
+  id=$p-$k; [ "$(echo $w | cut -c1)" = D ] && id=$p-r2$k
+  out=/tmp/mut/results/$id.log
   [ -f $out ] && [ -z "$FORCE" ] && continue
-  /verif/tools/mutant.sh /tmp/mut/$p $d $p > $out 2>&1
-  echo "$p-$k: $(grep -c '^CONFIRM' $out) confirms; $(grep -E '^(OK|VIOLATION)' $out | cut -c1-120)"
+  /verif/tools/mutant.sh /tmp/mut/$w $d $p > $out 2>&1
+  echo "$id: $(grep -c '^CONFIRM' $out) confirms [$(grep '^CONFIRM' $out | grep -c -i 'bad\|FAILS with')] bad; $(grep -E '^(OK|VIOLATION)' $out | cut -c1-120)"
 done
